@@ -133,6 +133,17 @@ Theorem sc_conflict_decide_eq : forall alts orders, sc_conflict_decide alts orde
 Proof. exact Proofs.SC.sc_conflict_decide_eq. Qed.
 Print Assumptions sc_conflict_decide_eq.
 
+Theorem sc_conflict_decide_perm : forall alts alts' orders orders',
+  Permutation alts alts' -> Permutation orders orders' ->
+  sc_conflict_decide alts orders = sc_conflict_decide alts' orders'.
+Proof. exact Proofs.SC.sc_conflict_decide_perm. Qed.
+Print Assumptions sc_conflict_decide_perm.
+
+Theorem sc_conflict_decide_relabel : forall f : N -> N, (forall x y, f x = f y -> x = y) ->
+  forall alts orders, sc_conflict_decide (map f alts) (map (map f) orders) = sc_conflict_decide alts orders.
+Proof. exact Proofs.SC.sc_conflict_decide_relabel. Qed.
+Print Assumptions sc_conflict_decide_relabel.
+
 (* a sufficient criterion reused by C19: every pair is monotone along the sequence *)
 Theorem sc_seq_of_monotone : forall alts s,
   (forall a b, In a alts -> In b alts -> a <> b ->
